@@ -332,7 +332,7 @@ class RouteController:
             _module_gate_count_cache (Dict[str, int]):
                 A cache for counting module gate occurrences.
         """
-        self._unresolved_arp_queries_cache: Dict[str, RouteEntry] = {}
+        self._unresolved_arp_queries_cache: Dict[str, List[RouteEntry]] = {}
         self._neighbor_cache: Dict[str, NeighborEntry] = {}
         self._module_gate_count_cache: Dict[str, int] = defaultdict(lambda: 0)
 
@@ -471,13 +471,14 @@ class RouteController:
             netlink_message (dict): The netlink message.
         """
         attr_dict = dict(netlink_message["attrs"])
-        route_entry = self._unresolved_arp_queries_cache.get(
-            attr_dict[KEY_NETWORK_LAYER_DEST_ADDR]
-        )
+        next_hop_ip = attr_dict[KEY_NETWORK_LAYER_DEST_ADDR]
+        route_entries = self._unresolved_arp_queries_cache.get(next_hop_ip)
         gateway_mac = attr_dict[KEY_LINK_LAYER_ADDRESS]
-        if route_entry:
-            self._add_neighbor(route_entry, gateway_mac)
-            del self._unresolved_arp_queries_cache[route_entry.next_hop_ip]
+        if route_entries:
+            # every route that was waiting for this next hop
+            for route_entry in route_entries:
+                self._add_neighbor(route_entry, gateway_mac)
+            del self._unresolved_arp_queries_cache[next_hop_ip]
 
     def _create_module_links(
         self,
@@ -586,7 +587,11 @@ class RouteController:
         Args:
             route_entry (NeighborEntry): The neighbor entry.
         """
-        self._unresolved_arp_queries_cache[route_entry.next_hop_ip] = route_entry
+        pending = self._unresolved_arp_queries_cache.setdefault(
+            route_entry.next_hop_ip, []
+        )
+        if route_entry not in pending:
+            pending.append(route_entry)
         logger.info("Adding entry %s in arp table by pinging", route_entry)
         send_ping(route_entry.next_hop_ip)
 
